@@ -343,6 +343,61 @@ example : Inv exState (some exOld) := by
   have := inv_step inv_init (.load exOld ⟨true, false, 0, [], [0, 3], [0, 3]⟩)
   exact this
 
+/-! ### unix sockets: the permission bits are not part of the socket's identity -/
+
+/-- the three spellings of the unix socket (no bits, `|0600`, `|0660`) name ONE socket; every TCP
+    address is its own -/
+theorem sockId_ignores_permission_bits :
+    sockId 8 = sockId 9 ∧ sockId 9 = sockId 10 ∧ (∀ t, t < 8 → sockId t = t) ∧
+    (∀ t, 8 ≤ t → sockId t = 8) := by
+  refine ⟨rfl, rfl, fun t h => by simp [sockId, h], fun t h => ?_⟩
+  have : ¬ t < 8 := Nat.not_lt.mpr h
+  simp [sockId, this]
+
+/-- **rejected_keeps_every_socket_reachable** (full strength; the clause seeded mutant
+    C01-unix-socket-key-includes-permission-bits breaks). After a rejected attempt — whatever it
+    listens on, in particular the running configuration's unix socket under ANY permission-bit
+    spelling, and however late it is rejected (after it bound that socket) — exactly the same
+    servers are reachable on exactly the same sockets, and the socket file keeps the permission
+    bits of the running configuration. -/
+theorem rejected_keeps_every_socket_reachable (s : State) (c : Cfg) (e : Env)
+    (hw : s.raw = s.rawJSON) (hs : ∀ k ∈ s.socks, k.cid < s.next)
+    (hr : (changeTo c e s).2.accepted = false) :
+    reach (changeTo c e s).1 = reach s ∧ fileMode (changeTo c e s).1 = fileMode s := by
+  have h := (rejected_changes_nothing s c e hw hs hr).2.2.2.2
+  unfold reach fileMode
+  rw [h]
+  exact ⟨rfl, rfl⟩
+
+/-- **history_reachable** (full strength). For EVERY history: who is reachable on which socket is
+    exactly what the spec's running configuration says, the unix socket counted once under all its
+    spellings. -/
+theorem history_reachable (ops : List Op) :
+    (reach (runBoth State.init none ops).1).Perm (Spec.cfgReach (runBoth State.init none ops).2) := by
+  have h := (history_atomic ops).2.1
+  have := h.map (fun p : Nat × Nat => (sockId p.1, p.2))
+  unfold reach Spec.cfgReach
+  unfold answers at this
+  rw [List.map_map] at this
+  exact this
+
+-- non-vacuity: the HTTP app serves the unix socket spelled `|0600` (token 9) and TCP address 0; a
+-- load naming it `|0660` (token 10) binds it, then fails at its second listener (address 1 is held
+-- by somebody else): rejected, the same server is reachable on the socket, the file mode stays
+-- 0600; an accepted load naming it without bits (token 8) takes it over, mode 0200
+example :
+    let s0 := (step State.init (.load ⟨0, [], [⟨3, 1, 0, [9, 0], []⟩], ⟨0, 0⟩⟩ ⟨true, false, 0, [], [3], [3]⟩)).1
+    let bad : Cfg := ⟨0, [], [⟨3, 2, 0, [10, 1], []⟩], ⟨0, 0⟩⟩
+    let eb : Env := ⟨true, false, 0, [1], [3], [3]⟩
+    reach s0 = [(8, 1), (0, 1)] ∧ fileMode s0 = some 0o600 ∧
+    (changeTo bad eb s0).2 = .errStart ∧
+    (bindAll 1 ⟨3, 2, 0, [10, 1], []⟩ [1] [10] s0).2 = true ∧
+    reach (changeTo bad eb s0).1 = [(8, 1), (0, 1)] ∧ fileMode (changeTo bad eb s0).1 = some 0o600 ∧
+    reach (changeTo ⟨0, [], [⟨3, 3, 0, [8, 2], []⟩], ⟨0, 0⟩⟩ ⟨true, false, 0, [], [3], [3]⟩ s0).1 = [(8, 3), (2, 3)] ∧
+    fileMode (changeTo ⟨0, [], [⟨3, 3, 0, [8, 2], []⟩], ⟨0, 0⟩⟩ ⟨true, false, 0, [], [3], [3]⟩ s0).1 = some 0o200 := by
+  decide
+
+
 /-! ### the default logger over histories -/
 
 theorem decodeAndRun_next (cid : Nat) (c : Cfg) (e : Env) (s : State) :
